@@ -7,6 +7,7 @@ import Rbgp.Accept.ProofsNeg
 import Rbgp.Accept.ProofsCfg
 import Rbgp.Accept.ProofsHist
 import Rbgp.Accept.ProofsSim
+import Rbgp.Accept.ProofsLoad
 import Rbgp.Accept.Codec
 namespace Rbgp.Accept.Props
 open Rbgp.Accept Rbgp.Accept.Proofs Rbgp.Accept.ProofsNet Rbgp.Accept.ProofsNeg Rbgp.Accept.ProofsCfg
@@ -375,7 +376,7 @@ theorem accept_iff_full_fails : ¬ accept_iff_full := by
 def CaseWF : Case → Prop
   | .neg .. => True
   | .contains n a => bytesOk n.bytes ∧ bytesOk a.bytes
-  | .hist g groups peers ops => HistWF g groups peers ops
+  | .hist g groups peers ops => ProofsLoad.CaseHistWF g groups peers ops
 
 /-- operations of a case that can tear a connection down -/
 def hasTearDown : Case → Bool
@@ -404,9 +405,9 @@ theorem check_run_ok (c : Case) (hwf : CaseWF c) :
     · rw [(contains_other_family n a hlen).1]
       simp [Spec.checkContains, hlen, (contains_other_family n a hlen).2]
   | hist g groups peers ops =>
-    obtain ⟨h, hr⟩ := runHist_ok g groups peers ops hwf
+    obtain ⟨h, hr⟩ := ProofsLoad.runHist_ok g groups peers ops hwf
     simp only [run, hr, Spec.check]
-    exact checkHist_model g groups peers ops hwf h hr
+    exact ProofsLoad.checkHist_model g groups peers ops hwf h hr
 
 /-- in particular: a history without shutdown / reset / disable / delete is accepted outright -/
 theorem check_run_ok_without_teardown (c : Case) (hwf : CaseWF c) (hq : hasTearDown c = false) :
@@ -436,12 +437,11 @@ theorem wfCase_sound (c : Case) (h : Codec.wfCase c = true) : CaseWF c := by
       | none => trivial
       | some c => obtain ⟨id, m⟩ := c; rw [hc] at h1; simpa using h1
     · intro gr hgr n hn
-      have := h2 gr hgr n hn
-      simp only [Bool.and_eq_true, decide_eq_true_eq] at this
-      exact ⟨this.1, oct _ this.2⟩
+      exact oct _ (h2 gr hgr n hn)
     · intro pc hpc
       have := h3 pc hpc
-      cases hd : pc.params.dyn <;> simp_all
+      simp only [Bool.and_eq_true, Bool.not_eq_true'] at this
+      exact this.1
     · intro op hop a r he
       have := h4 op hop
       subst he
@@ -455,7 +455,7 @@ example : CaseWF (.hist ⟨65001, 1, some (65000, [65002])⟩
   refine ⟨by simp [confedIdOk], ?_, ?_, ?_⟩
   · intro g hg n hn
     simp at hg; subst hg; simp at hn; subst hn
-    exact ⟨by decide, by intro x hx; simp at hx; rcases hx with rfl | rfl | rfl | rfl <;> decide⟩
+    intro x hx; simp at hx; rcases hx with rfl | rfl | rfl | rfl <;> decide
   · intro pc hpc; simp at hpc; subst hpc; rfl
   · intro op hop a r he
     simp at hop
